@@ -99,5 +99,9 @@ def drvADram (st : Option ADramDrv) (xs : List Nat) : Option ADramDrv × String 
         bank := arr.getD (b+4) 0, address := arr.getD (b+5) 0, wrdata := arr.getD (b+6) 0, wrdataMask := arr.getD (b+7) 0 }
     let lg := d.legal && ((List.range d.sc.nbanks).all fun nb => C19.cycOkB sp nb && C19.legalOpB d.sc (d.s.abanks nb) (C19.cmdFor d.sc sp nb))
     let (s', o) := C19.aDramStep d.sc d.k d.s sp
-    (some { d with s := s', legal := lg }, fmt [b2n o.rddataValid, o.rddata, b2n lg])
+    -- `aDramStep` returns the banks as a function built on the previous state's function: tabulate it every cycle (same values
+    -- for every bank index < nbanks, the only ones ever asked for), otherwise a lookup costs one closure per elapsed cycle
+    let tbl := (Array.range d.sc.nbanks).map s'.abanks
+    let dflt : C19.ABank := { openRow := none, mem := fun _ _ => 0, inflight := [] }
+    (some { d with s := { s' with abanks := fun nb => tbl.getD nb dflt }, legal := lg }, fmt [b2n o.rddataValid, o.rddata, b2n lg])
   | _, _ => (st, "bad-line")
